@@ -26,6 +26,8 @@ func init() {
 			ruleUpdateOffLockAndLoop(c, "C05.6", "C05.7")
 			ruleServerCancel(c, "C05.9a", "C05.9")
 			ruleShortLocks(c, "C05.10")
+			ruleContextChain(c, "C05.11")
+			ruleUpdateCallbackGuards(c, "C05.12", "C05.13")
 			ruleQueueDiscipline(c, "C05.8")
 		},
 		Explain:    "Shape conditions of the standard no-lost-wake-up / no-credit-leak argument, decided statically: token channel capacity >= 1, token sent whenever the window was empty before the add, sender waits only at window == 0 inside a loop that reloads after waking and has a context alternative, CAS reservation against the loaded value, credit identity (exactly measure(item) subtracted on accept, added back and sent as window update on dequeue; measure closures cover exactly the data-bearing frames), window updates sent off the receiver's lock and off the receive loops, consumer woken on empty->non-empty. These are necessary conditions; absence of lost wake-ups under all interleavings as such is a model-checking question and is not claimed.",
@@ -66,6 +68,8 @@ func init() {
 			ruleSingleDispatch(c, "C03.9b")
 			ruleEmitIDs(c, "C03.10")
 			ruleRejectClose(c, "C03.10b")
+			ruleContextChain(c, "C03.11")
+			ruleCloseSafety(c, "C03.12")
 		},
 		Explain:    "Static necessary conditions of RPC independence: the effect set reachable on each receive loop's own goroutine (over resolved call edges minus go sites, restricted to code that continues the loop) contains no carrier send, blocking channel operation, cond/WaitGroup wait or user callback; every lock the loops take is short (no such effect anywhere while it may be held; frozen exceptions named); tunnel-level termination is reachable only for Recv failure / never-created id / reused id; stream-level rejections are recorded in the high-water mark before returning; window updates never run on a loop goroutine or under the receiver's lock. Liveness ('never indefinitely delays') is not decided.",
 		Assume:     []string{"a conforming peer's receive loop never waits on us (needed for the server write-mutex exception)", "VTA call graph over-approximates dynamic calls", "external callees are summarised (context, metadata, status, list: non-blocking)"},
